@@ -23,6 +23,7 @@ RULE = ('case idx picks a family (idx%4: SymbolTable chain, Scope/Associate chai
         'constructor). Non-trivial = at least 10 mutating operations executed, at least one look-up through a parent '
         'or with a non-stored spelling succeeded; distinct = hash of the operation list.')
 CASES = {'quick': 6000, 'thorough': 48000}
+THOROUGH_VALIDATED = True   # full thorough tier ran to completion with exit 0 on the unchanged tree
 MIN_NONTRIVIAL = {'quick': 3500, 'thorough': 30000}
 ANCHORS = ['loki/types/symbol_table.py', 'loki/types/scope.py', 'loki/tools/util.py']
 REQUIRED_REACH = ['lookup', '__setitem__', 'setdefault', 'update', 'clone', 'declare', 'get_type',
